@@ -92,8 +92,9 @@ Theorem C09_hilbert_no_panic : forall tol maxo order fuel idx ws k p0,
 Proof. exact hilbert_partition_no_panic. Qed.
 Print Assumptions C09_hilbert_no_panic.
 
-(* REFUTED: the quantile search does NOT terminate for every input in the
-   contract.  Witness: curve indices 0, 4, 8, every weight 1e-16 (finite,
+(* REFUTED for the comparison with the default absolute epsilon (flag [false] of
+   the flag-parametric model [..._g]; /repo before the repair): the quantile
+   search does NOT terminate for every input in the contract.  Witness: curve indices 0, 4, 8, every weight 1e-16 (finite,
    positive), 5 parts: the model is out of fuel for EVERY amount of fuel (the
    loop state alternates between two states from the third round on).  Cause:
    `approx::abs_diff_eq!` compares partial sums with the ABSOLUTE tolerance
@@ -104,7 +105,7 @@ Theorem C09_quantiles_terminate_refuted :
   exists (pts : list N) (ws : list spec_float) (n : nat),
     pts <> [] /\ 3 <= n /\ Forall (fun w => is_finite w = true /\ flt fzero w = true) ws
     /\ length ws = length pts
-    /\ forall fuel, weighted_quantiles (f64_of_bits hilbert_split_tolerance_bits) fuel pts ws n = OutOfFuel.
+    /\ forall fuel, weighted_quantiles_g false (f64_of_bits hilbert_split_tolerance_bits) fuel pts ws n = OutOfFuel.
 Proof.
   exists wit_idx, wit_ws, wit_n.
   split; [discriminate|]. split; [repeat constructor|].
@@ -114,15 +115,30 @@ Qed.
 Print Assumptions C09_quantiles_terminate_refuted.
 Theorem C09_hilbert_partition_hangs : forall order fuel p0,
   (order <= hilbert_max_order_2d)%N -> p0 <> [] ->
-  hilbert_impl_2d order fuel [0; 4; 8]%N (repeat (f64_of_bits 4367597403136100796%N) 3) 5 p0 = OutOfFuel.
+  hilbert_partition_g false (f64_of_bits hilbert_split_tolerance_bits) hilbert_max_order_2d order fuel
+    [0; 4; 8]%N (repeat (f64_of_bits 4367597403136100796%N) 3) 5 p0 = OutOfFuel.
 Proof. exact (hilbert_partition_nontermination hilbert_max_order_2d). Qed.
 Print Assumptions C09_hilbert_partition_hangs.
 
+(* with the repaired comparison (epsilon = f64::EPSILON * min(1, total weight), flag [true])
+   the same input returns (the repaired real function returns the same positions) *)
+Example C09_witness_returns_with_scaled_epsilon :
+  weighted_quantiles_g true (f64_of_bits hilbert_split_tolerance_bits) 100 [0; 4; 8]%N
+    (repeat (f64_of_bits 4367597403136100796%N) 3) 5 = Ok [0; 3; 3; 7]%N.
+Proof. vm_compute. reflexivity. Qed.
+
+(* the model of the current source = the flag-parametric model at the flag the translator read *)
+Theorem C09_hilbert_partition_is_g : forall tol maxo order fuel idx ws k p0,
+  hilbert_partition tol maxo order fuel idx ws k p0
+  = hilbert_partition_g hilbert_eps_scaled tol maxo order fuel idx ws k p0.
+Proof. exact hilbert_partition_is_g. Qed.
+Print Assumptions C09_hilbert_partition_is_g.
+
 (* PARTIAL: termination of the quantile search is proved for part_count <= 2
    only (a single split is a plain bisection; 66 rounds suffice for u64
-   indices).  For part_count >= 3 termination is FALSE in general
-   (C09_quantiles_terminate_refuted above); whether it holds for weights of
-   ordinary magnitude is open. *)
+   indices).  For part_count >= 3 termination is FALSE for the old comparison
+   (C09_quantiles_terminate_refuted above); for the repaired comparison it is
+   unproved and unrefuted. *)
 Theorem C09_quantiles_terminate_partial : forall tol fuel pts ws n,
   pts <> [] -> Forall (fun x => (x < 2 ^ 64)%N) pts -> 1 <= n <= 2 -> 66 <= fuel ->
   exists splits, weighted_quantiles tol fuel pts ws n = Ok splits.
